@@ -2789,38 +2789,51 @@ def log(
             include=include,
             max_entries=None,  # We filter ourselves to handle author/grep/merges
             paths=paths_bytes,
-            reverse=reverse,
+            # with a limit, "reverse" applies to what the limit selected (the
+            # newest entries), as in git log --reverse -n: select first
+            reverse=reverse and max_entries is None,
             since=since_ts,
             until=until_ts,
             follow=follow,
         )
 
-        count = 0
-        for entry in walker:
+        def selected() -> Iterator["WalkEntry"]:
+            count = 0
+            for entry in walker:
+                commit = entry.commit
+
+                # Filter by merge status
+                if no_merges and len(commit.parents) > 1:
+                    continue
+                if merges and len(commit.parents) <= 1:
+                    continue
+
+                # Filter by author
+                if author_re and not author_re.search(commit.author):
+                    continue
+
+                # Filter by committer
+                if committer_re and not committer_re.search(commit.committer):
+                    continue
+
+                # Filter by commit message
+                if grep_re and (
+                    not commit.message or not grep_re.search(commit.message)
+                ):
+                    continue
+
+                # Check max_entries after filtering
+                if max_entries is not None and count >= max_entries:
+                    break
+                count += 1
+                yield entry
+
+        entries: Iterable["WalkEntry"] = selected()
+        if reverse and max_entries is not None:
+            entries = reversed(list(entries))
+
+        for entry in entries:
             commit = entry.commit
-
-            # Filter by merge status
-            if no_merges and len(commit.parents) > 1:
-                continue
-            if merges and len(commit.parents) <= 1:
-                continue
-
-            # Filter by author
-            if author_re and not author_re.search(commit.author):
-                continue
-
-            # Filter by committer
-            if committer_re and not committer_re.search(commit.committer):
-                continue
-
-            # Filter by commit message
-            if grep_re and (not commit.message or not grep_re.search(commit.message)):
-                continue
-
-            # Check max_entries after filtering
-            if max_entries is not None and count >= max_entries:
-                break
-            count += 1
 
             def decode_wrapper(x: bytes) -> str:
                 return commit_decode(entry.commit, x)
